@@ -25,6 +25,9 @@ pub struct Case {
     pub verified: bool,
     pub mode: Mode,
     pub counter: bool,
+    /// configured credential id length (None = default 16)
+    #[serde(default)]
+    pub id_len: Option<u8>,
 }
 
 pub const OPS: [&str; 8] = ["client-register", "client-authenticate", "ctap-make", "ctap-get", "u2f-register", "u2f-authenticate", "get-info", "error-paths"];
@@ -38,13 +41,19 @@ pub fn cases() -> Vec<Case> {
                     for verified in [false, true] {
                         for mode in MODES {
                             for counter in [false, true] {
-                                let c = Case { op: op.into(), hmac, hmac_mc, prf, verified, mode, counter };
+                                let c = Case { op: op.into(), hmac, hmac_mc, prf, verified, mode, counter, id_len: None };
                                 let client = op.starts_with("client");
                                 if !client && mode != Mode::Default {
                                     continue;
                                 }
                                 if op.starts_with("u2f") && (prf != 0 || hmac_mc) {
                                     continue;
+                                }
+                                // registrations also with the longest configurable credential ids
+                                if (op == "client-register" || op == "ctap-make") && mode == Mode::Default {
+                                    for n in [32u8, 48, 64] {
+                                        v.push(Case { id_len: Some(n), ..c.clone() });
+                                    }
                                 }
                                 v.push(c);
                             }
@@ -115,7 +124,7 @@ fn outputs(c: &Case, store: &Shared<RefStore>) -> Result<Vec<(String, Vec<u8>)>,
     let mut out: Vec<(String, Vec<u8>)> = vec![];
     let log = Log::new();
     let uv = ScriptedUv { verification_cap: Some(true), presence_cap: true, outcome: UvOutcome::Ok { presence: true, verification: c.verified }, yields: 0, log: log.clone() };
-    let cfg = AuthCfg { counter: c.counter, id_len: None, hmac: c.hmac, hmac_mc: c.hmac_mc };
+    let cfg = AuthCfg { counter: c.counter, id_len: c.id_len, hmac: c.hmac, hmac_mc: c.hmac_mc };
     let uvr = if c.verified { UVR::Required } else { UVR::Discouraged };
     let prf_in = |n: u8| -> Option<PrfIn> { (n != 0).then(|| PrfIn { eval: Some(PrfVals { first: vec![1, 2, 3].into(), second: (n == 2).then(|| vec![4, 5].into()) }), eval_by_credential: None }) };
     let ctap_prf = |n: u8| -> Option<AuthenticatorPrfInputs> { (n != 0).then(|| AuthenticatorPrfInputs { eval: Some(AuthenticatorPrfValues { first: [9; 32], second: (n == 2).then_some([8; 32]) }), eval_by_credential: None }) };
@@ -304,7 +313,7 @@ pub fn run(ctx: &Ctx) -> Result<Run, String> {
     }
     let mut run = Run::from_stats(
         "exploration",
-        "product of operation {client register/authenticate, CTAP2 makeCredential/getAssertion, U2F register/authenticate, getInfo, error paths} x hmac-secret configuration(3) x evaluation at creation x PRF request {none, one, two inputs} x user verified x client-data mode x counter; after each ceremony every secret in the store (private scalars, both PRF secrets of every credential, new ones included) is searched in every returned value's Debug / pretty Debug / JSON / CBOR / raw encodings and in the Debug of each stored Passkey, as raw bytes, hex (both cases), decimal list, base64 and base64url in all three bit alignments. Non-trivial = distinct ceremony that returned a success value",
+        "product of operation {client register/authenticate, CTAP2 makeCredential/getAssertion, U2F register/authenticate, getInfo, error paths} x hmac-secret configuration(3) x evaluation at creation x PRF request {none, one, two inputs} x user verified x client-data mode x counter x configured credential-id length {16, 32, 48, 64} for registrations; after each ceremony every secret in the store (private scalars, both PRF secrets of every credential, new ones included) is searched in every returned value's Debug / pretty Debug / JSON / CBOR / raw encodings and in the Debug of each stored Passkey, as raw bytes, hex (both cases), decimal list, base64 and base64url in all three bit alignments. Non-trivial = distinct ceremony that returned a success value",
         true,
         stats,
     );
